@@ -2,8 +2,11 @@ import Ucan.Driver.Hex
 import Ucan.Model.Immut
 /-!
 `imm.op <op> <argument keys in insertion order> <metadata keys in insertion order>`
-op ∈ argsToIPLD | argsString | metaString | argsIter | metaIter | executionAllowed | seal
-Answer: `<argument key order afterwards> <metadata key order afterwards> <key order of the output>`
+op ∈ argsToIPLD | argsString | metaString | argsIter | metaIter | executionAllowed | seal |
+     executionAllowedHook | executionAllowedMissing
+Answer: `<argument key order afterwards> <metadata key order afterwards> <key order of the output>
+         <number of written cells in the spare capacity of the shared delegations' policy slices>`
+`imm.pair <op X> <op Y> <argument keys> <metadata keys>`: the same answer for Y run after X on one token
 (lists of hex keys joined by `,`; `.` = empty). Values are irrelevant to the order and are fixed.
 -/
 namespace Ucan.Driver
@@ -15,19 +18,37 @@ def outKeys : Out → List Bytes
   | .keys ks => ks
   | _ => []
 
+def opOfName : String → Option ROp
+  | "argsToIPLD" => some .argsToIPLD | "argsString" => some .argsString | "metaString" => some .metaString
+  | "argsIter" => some .argsIter | "metaIter" => some .metaIter | "executionAllowed" => some .executionAllowed
+  | "seal" => some .seal | "executionAllowedHook" => some .executionAllowedHook
+  | "executionAllowedMissing" => some .executionAllowedMissing | _ => none
+
+def immState (ak mk : List Bytes) : TokState :=
+  { argKeys := ak, argVals := ak.map (fun k => (k, Node.int 1)),
+    metaKeys := mk, metaVals := mk.map (fun k => (k, Node.int 1)),
+    proofs := [[1], [2]], dlgPolicySpare := List.replicate 7 none }
+
+def immAnswer (s' : TokState) (out : Out) : String :=
+  s!"{toHexList s'.argKeys} {toHexList s'.metaKeys} {toHexList (outKeys out)} {(s'.dlgPolicySpare.filter Option.isSome).length}"
+
 partial def runImmut : List String → Option String
   | ["imm.op", op, aks, mks, _origin] => runImmut ["imm.op", op, aks, mks]
   | ["imm.op", op, aks, mks] => do
     let ak ← fromHexList aks
     let mk ← fromHexList mks
-    let o : ROp ← match op with
-      | "argsToIPLD" => some .argsToIPLD | "argsString" => some .argsString | "metaString" => some .metaString
-      | "argsIter" => some .argsIter | "metaIter" => some .metaIter | "executionAllowed" => some .executionAllowed
-      | "seal" => some .seal | _ => none
-    let s : TokState := { argKeys := ak, argVals := ak.map (fun k => (k, Node.int 1)),
-                          metaKeys := mk, metaVals := mk.map (fun k => (k, Node.int 1)) }
-    let (s', out) := runOp o s
-    pure s!"{toHexList s'.argKeys} {toHexList s'.metaKeys} {toHexList (outKeys out)}"
+    let o ← opOfName op
+    let (s', out) := runOp o (immState ak mk)
+    pure (immAnswer s' out)
+  | ["imm.pair", x, y, aks, mks, _origin] => runImmut ["imm.pair", x, y, aks, mks]
+  | ["imm.pair", x, y, aks, mks] => do
+    let ak ← fromHexList aks
+    let mk ← fromHexList mks
+    let ox ← opOfName x
+    let oy ← opOfName y
+    let (s1, _) := runOp ox (immState ak mk)
+    let (s2, out) := runOp oy s1
+    pure (immAnswer s2 out)
   | _ => none
 
 end Ucan.Driver
